@@ -490,7 +490,9 @@ def _foreign_reset(prog, X, mname):
 def _resets(prog, ci, mm, X, depth):
     """method mm (of class ci) assigns / clears self.X, itself or through a method it calls on self"""
     for a in ast.walk(mm.node):
-        if isinstance(a, (ast.Assign, ast.AnnAssign)) and any(isinstance(t_, ast.Attribute) and astq.src(t_) == "self." + X for t_ in (a.targets if isinstance(a, ast.Assign) else [a.target])):
+        if isinstance(a, (ast.Assign, ast.AnnAssign)) and any(isinstance(t_, ast.Attribute) and astq.src(t_) == "self." + X
+                                                              for tt in (a.targets if isinstance(a, ast.Assign) else [a.target])
+                                                              for t_ in (tt.elts if isinstance(tt, (ast.Tuple, ast.List)) else [tt])):
             return True
         if isinstance(a, ast.Call) and isinstance(a.func, ast.Attribute) and a.func.attr in ("clear", "pop") and astq.src(a.func.value) == "self." + X:
             return True
